@@ -1286,8 +1286,13 @@ def run(tier):
         mark("hutchinson_wait")
     finally:
         common.cleanup(wd)
-        if hproc is not None and hproc[0].poll() is None:
-            hproc[0].kill()
+        if hproc is not None:           # the interleaving part failed: do not leave the Hutchinson phase behind
+            if hproc[0].poll() is None:
+                hproc[0].kill()
+            try:
+                os.unlink(hproc[1])
+            except OSError:
+                pass
     n_inter = len(all_lines)
     if stateful:
         extra.append("MODEL-FINDING: np_fns.randn keeps state between calls (" + "; ".join(stateful) + "): the model lets "
